@@ -138,7 +138,7 @@ theorem applySet_succ (c : Claims) (op : SetOp) (h : accepts c.prof op = true) :
       | some vals =>
         simp only [] at hok ⊢
         rcases validateAndConvert_cases vals with h' | ⟨m, h'⟩
-        · rw [h']; simp only [Outcome.bind]; cases sw <;> rfl
+        · rw [h']; simp only [Outcome.bind]
         · rw [h'] at hok; simp [Outcome.bind] at hok
     · cases l with
       | none => simp [accepts] at h
@@ -186,7 +186,7 @@ theorem applySet_fail (c : Claims) (op : SetOp) (h : accepts c.prof op = false) 
         simp only [] at hne ⊢
         rcases validateAndConvert_cases vals with h' | ⟨m, h'⟩
         · rw [h'] at hne; simp [Outcome.bind] at hne
-        · rw [h']; simp only [Outcome.bind]; cases sw <;> rfl
+        · rw [h']; simp only [Outcome.bind]
     · cases l with
       | none => rfl
       | some vals =>
@@ -194,6 +194,49 @@ theorem applySet_fail (c : Claims) (op : SetOp) (h : accepts c.prof op = false) 
         rcases validateAndConvert_cases vals with h' | ⟨m, h'⟩
         · rw [h'] at hne; simp [Outcome.bind] at hne
         · rw [h']; simp only [Outcome.bind]; cases sw <;> rfl
+  | nonce b =>
+    simp only [applySet] at hne ⊢
+    rcases validateHash_cases b with h' | h' <;> simp [h'] at hne ⊢
+  | instId b =>
+    simp only [applySet] at hne ⊢
+    rcases validateInstID_cases b with h' | h' <;> simp [h'] at hne ⊢
+  | vsi s =>
+    simp only [applySet] at hne ⊢
+    cases h' : validateVSI s <;> simp [h'] at hne ⊢
+
+/-- … and exactly unchanged, deep state included, for every setter of profile 1 (the component list is built aside and
+    attached only on success) and for every setter of profile 2 other than the component list -/
+theorem applySet_fail_exact (c : Claims) (op : SetOp) (h : accepts c.prof op = false)
+    (hp : c.prof = .p1 ∨ ∀ l, op ≠ .sw l) : (applySet c op).1 = c := by
+  have hne : (applySet c op).2 ≠ .ok () := fun hh => by
+    rw [(applySet_ok_iff c op).mp hh] at h; cases h
+  cases op with
+  | clientId v => simp [accepts] at h
+  | lifecycle v =>
+    simp only [applySet] at hne ⊢
+    rcases validateLC_cases v with h' | h' <;> simp [h'] at hne ⊢
+  | implId b =>
+    simp only [applySet] at hne ⊢
+    cases h' : validateImplID b <;> simp [h'] at hne ⊢
+  | bootSeed b =>
+    simp only [applySet] at hne ⊢
+    cases hp' : c.prof <;> simp only [hp'] at hne ⊢ <;> split <;> simp_all
+  | certRef s =>
+    simp only [applySet] at hne ⊢
+    cases hp' : c.prof <;> simp only [hp'] at hne ⊢ <;> split <;> simp_all
+  | sw l =>
+    rcases hp with hp | hp
+    · obtain ⟨prof, canonical, profile, clientId, lifecycle, implId, bootSeed, certRef, sw, noSw, nonce, instId, vsi⟩ := c
+      simp only at hp; subst hp
+      simp only [applySet, replaceVals] at hne ⊢
+      cases l with
+      | none => simp at hne
+      | some vals =>
+        simp only [] at hne ⊢
+        rcases validateAndConvert_cases vals with h' | ⟨m, h'⟩
+        · rw [h'] at hne; simp [Outcome.bind] at hne
+        · rw [h']; simp only [Outcome.bind]
+    · exact absurd rfl (hp l)
   | nonce b =>
     simp only [applySet] at hne ⊢
     rcases validateHash_cases b with h' | h' <;> simp [h'] at hne ⊢
